@@ -32,13 +32,33 @@ pub struct CreateOp {
     /// commission atomics as a decimal string
     pub commission: Option<String>,
     pub lp: haloswap::asset::LPTokenInfo,
+    /// Some((denom, decimals)): this operation is not a creation but the owner's (re-)registration of a native
+    /// denom's decimals; all other fields are then ignored
+    #[serde(default)]
+    pub register: Option<(String, u8)>,
 }
 
 fn decode(fw: &FactoryWorld, chunk: &[u64]) -> CreateOp {
     let mut o = Src::new(chunk);
     let uni = fw.universe(true);
     let valid_n = fw.w.natives.len() + fw.w.tokens.len();
-    let kind = o.weighted(&[10, 2, 1, 2, 1]);
+    let kind = o.weighted(&[10, 2, 1, 2, 1, 2]);
+    if kind == 5 {
+        // the owner re-registers a registered denom with other decimals: pairs created afterwards must
+        // record the value registered at THEIR creation
+        let regs: Vec<String> = fw.model.denoms.keys().cloned().collect();
+        if !regs.is_empty() {
+            let d = regs[o.idx(regs.len())].clone();
+            return CreateOp {
+                sender: fw.w.owner.to_string(),
+                assets: [AssetInfo::NativeToken { denom: d.clone() }, AssetInfo::NativeToken { denom: d.clone() }],
+                requirements: haloswap::asset::CreatePairRequirements { whitelist: vec![], first_asset_minimum: cosmwasm_std::Uint128::zero(), second_asset_minimum: cosmwasm_std::Uint128::zero() },
+                commission: None,
+                lp: haloswap::asset::LPTokenInfo { lp_token_name: "halo-lp".into(), lp_token_symbol: "HLP".into(), lp_token_decimals: None },
+                register: Some((d, o.below(19) as u8)),
+            };
+        }
+    }
     let existing: Vec<[AssetInfo; 2]> = fw.model.pairs.values().map(|m| m.infos.clone()).collect();
     let (mut a, mut b) = match kind {
         1 if !existing.is_empty() => {
@@ -59,7 +79,7 @@ fn decode(fw: &FactoryWorld, chunk: &[u64]) -> CreateOp {
     let requirements = gen_requirements(&mut o, &fw.w);
     let commission = gen_commission(&mut o).map(|c| c.to_string());
     let (lp, _) = gen_lp_info(&mut o);
-    CreateOp { sender, assets: [a, b], requirements, commission, lp }
+    CreateOp { sender, assets: [a, b], requirements, commission, lp, register: None }
 }
 
 fn play(cfg: &WorldCfg, next: &mut dyn FnMut(&FactoryWorld, usize) -> Option<CreateOp>, want_desc: bool, key: u64) -> CaseResult {
@@ -72,6 +92,39 @@ fn play(cfg: &WorldCfg, next: &mut dyn FnMut(&FactoryWorld, usize) -> Option<Cre
     let mut verdict = Verdict::Pass;
     let mut idx = 0usize;
     while let Some(op) = next(&fw, idx) {
+        if let Some((denom, decimals)) = op.register.clone() {
+            if want_desc {
+                concrete.push(op.clone());
+            }
+            let rec = fw.w.exec(Step {
+                sender: fw.w.owner.to_string(),
+                call: Call::Factory { msg: haloswap::factory::ExecuteMsg::AddNativeTokenDecimals { denom: denom.clone(), decimals } },
+                funds: vec![],
+            });
+            if want_desc {
+                log.push(json!({"register": denom, "decimals": decimals, "ok": rec.outcome.is_ok()}));
+            }
+            idx += 1;
+            if rec.outcome.is_ok() {
+                classes.push("reg:re-registration");
+                fw.model.denoms.insert(denom.clone(), decimals);
+                for m in fw.model.pairs.values_mut() {
+                    for i in 0..2 {
+                        if m.infos[i] == (AssetInfo::NativeToken { denom: denom.clone() }) {
+                            m.decimals[i] = decimals;
+                        }
+                    }
+                }
+                if let Err(m) = fw.check_registry(false) {
+                    verdict = Verdict::Fail(format!("after op {} (re-registered {} with {} decimals): {}", idx - 1, denom, decimals, m));
+                    break;
+                }
+            } else if !rec.state_unchanged() {
+                verdict = Verdict::Fail(format!("op {}: refused AddNativeTokenDecimals({}, {}) changed chain state", idx - 1, denom, decimals));
+                break;
+            }
+            continue;
+        }
         let [a, b] = op.assets.clone();
         let commission: Option<u128> = op.commission.as_ref().and_then(|c| c.parse().ok());
         let existing: Vec<[AssetInfo; 2]> = fw.model.pairs.values().map(|m| m.infos.clone()).collect();
@@ -197,9 +250,9 @@ pub fn suites() -> Vec<Suite> {
         thorough_cases: 150_000,
         run,
         direct: Some(direct),
-        must_hit: &["r:created", "r:creation-refused", "r:duplicate-refused", "r:identical-refused", "r:invalid-asset-refused", "col:set-colliding-by-concatenation-attempted", "n:3-9-created", "n:10+-created"],
+        must_hit: &["r:created", "r:creation-refused", "r:duplicate-refused", "r:identical-refused", "r:invalid-asset-refused", "col:set-colliding-by-concatenation-attempted", "n:3-9-created", "n:10+-created", "reg:re-registration"],
     }]
 }
 
-pub const RULE: &str = "case = factory world (3-8 native denoms drawn from a 14-name pool with heavy prefix sharing, in 3/4 of the worlds containing the four splits of one concatenation 'abc|defg' = 'abcd|efg' = 'ab|cdefg' = 'abcde|fg'; 1/6 of the denoms unregistered; 0-3 cw20 tokens; a user address, the factory and a non-existent address posing as tokens) + history of <= 30 CreatePair calls (fresh sets, duplicates in either order, identical assets, invalid assets, non-owner sender; commission absent / in [0,1] / 1 / above 1; whitelist and minimum settings; valid and invalid LP token metadata); after every successful creation every unordered pair of valid assets, and at the end also invalid ones, is looked up in both orders: created sets must resolve to their own pair with a record equal to the pair's self-description and to the creation arguments and true decimals, never-created sets must resolve to nothing, distinct sets never share a pair; refused creations must leave the chain byte-identical; non-trivial = >= 3 successful creations including two sets that share a denom prefix; distinct = hash of the tape";
+pub const RULE: &str = "case = factory world (3-8 native denoms drawn from a 17-name pool with heavy prefix sharing (three names with upper-case letters), in 3/4 of the worlds containing the four splits of one concatenation 'abc|defg' = 'abcd|efg' = 'ab|cdefg' = 'abcde|fg'; 1/6 of the denoms unregistered; 0-3 cw20 tokens; a user address, the factory and a non-existent address posing as tokens) + history of <= 30 CreatePair calls (fresh sets, duplicates in either order, identical assets, invalid assets, non-owner sender; interleaved re-registrations of a registered denom's decimals by the owner; commission absent / in [0,1] / 1 / above 1; whitelist and minimum settings; valid and invalid LP token metadata); after every successful creation every unordered pair of valid assets, and at the end also invalid ones, is looked up in both orders: created sets must resolve to their own pair with a record equal to the pair's self-description and to the creation arguments and true decimals, never-created sets must resolve to nothing, distinct sets never share a pair; refused creations must leave the chain byte-identical; non-trivial = >= 3 successful creations including two sets that share a denom prefix; distinct = hash of the tape";
 pub const ASSUMPTIONS: &[&str] = &["cw-multi-test chain model (MockApi canonical addresses are fixed-length)", "'creation succeeds only if ...' is asserted as stated (only-if); that a valid fresh set CAN be created is observed through the aliasing checks, not demanded"];
